@@ -30,7 +30,7 @@ def out_query(sel, kf=(), prefix="out", extra_defines=(), timeout=600):
     if sel == 0 and not any(d.startswith("PIDBITS") for d in extra_defines):
         extra_defines = tuple(extra_defines) + ("PIDBITS=10",)      # decimal rendering of the pid is solver-hard: 0..1023 in the quick tier
     return Q(name="%s_%s" % (prefix, name), harness="C04_outputs.c", units=UNITS, models=MODELS,
-             defines=("OUTSEL=%d" % sel, "V_STR_CAP=16", "VL_MALLOC_CAP=400", "V_NCH=16") + tuple("KF_" + k for k in kf) + tuple(extra_defines),
-             unwind=18, unwindset=("strncpy.0:110", "strlen.0:50", "strnlen.0:110", "v_copy_bounded.0:26", "strncmp.0:26", "send.0:30", "rec_is.0:30"),
+             defines=("OUTSEL=%d" % sel, "V_STR_CAP=16", "VL_MALLOC_CAP=400", "V_NCH=16", "VL_MEMCPY_LOOP=1") + tuple("KF_" + k for k in kf) + tuple(extra_defines),
+             unwind=18, unwindset=("strncpy.0:110", "strlen.0:50", "strnlen.0:110", "v_copy_bounded.0:26", "strncmp.0:26", "send.0:30", "rec_is.0:30", "memcpy.0:30", "write.0:44"),
              flags=("--object-bits", "10"), timeout=timeout, mem_gb=6,
              bounds="output '%s'; message 0..5 arbitrary bytes (no '%%'), argument 0..5 bytes, any facility/level/pid, error logging on/off, pass or drop verdict, stdio buffer 1..2^20, every I/O call may fail" % name)
